@@ -347,9 +347,14 @@ class World:
             skey = f'src-k{x}'
             self.key2x[skey] = x
             self.svc.put(BUCKET, skey, data)
-            info['call'] = lambda: self.manager.copy(
-                {'Bucket': BUCKET, 'Key': skey}, BUCKET, key,
-                extra_args=extra or None, subscribers=subs)
+            def _call_copy():
+                if upd:
+                    extra.update(upd)
+                return self.manager.copy(
+                    {'Bucket': BUCKET, 'Key': skey}, BUCKET, key,
+                    extra_args=extra if (extra or t.get('extra_ref')) else None,
+                    subscribers=subs)
+            info['call'] = _call_copy
         elif kind == 'delete':
             self.svc.put(BUCKET, key, data)
             info['call'] = lambda: self.manager.delete(
